@@ -1300,13 +1300,6 @@ _bucket_setstate(Bucket *self, PyObject *state)
     if (!PyArg_ParseTuple(state, "O|O:__setstate__", &items, &next))
         return -1;
 
-    /* the successor is followed as a C struct: it has to be a bucket */
-    if (next && !PyObject_TypeCheck(next, &BucketType)) {
-        PyErr_SetString(PyExc_TypeError,
-                        "the successor in a bucket state must be a bucket");
-        return -1;
-    }
-
     if (!PyTuple_Check(items)) {
         PyErr_SetString(PyExc_TypeError,
                         "tuple required for first state element");
